@@ -184,6 +184,10 @@ class FaultyIntegrator:
 
         if self.mode == "raise":
             raise SimulatedSolverCrash("injected solver crash")
+        if self.mode == "interrupt":
+            from simkit.fnlib import SimInterrupt
+
+            raise SimInterrupt  # the user interrupts the (long) integration: a KeyboardInterrupt
         return _result(IntegrationFailure())
 
     def reset(self) -> None:
